@@ -29,7 +29,8 @@ fn gen_tree(rng: &mut Rng, with_commands: bool) -> (Project, String) {
         }
     };
     let mut dirs: Vec<String> = vec![pre("")];
-    for d in ["a", "a/b", "a/b/c", "x", "x/y", "e.txtpp"] {
+    // "ab" and "x/y2": siblings whose names extend a neighbour's name (string prefix, not ancestor)
+    for d in ["a", "a/b", "a/b/c", "x", "x/y", "e.txtpp", "ab", "x/y2"] {
         if rng.chance(3, 5) {
             // parents come along
             let mut cur = String::new();
@@ -46,6 +47,10 @@ fn gen_tree(rng: &mut Rng, with_commands: bool) -> (Project, String) {
         dirs.push("q".to_string());
         if rng.chance(1, 2) {
             dirs.push("q/r".to_string());
+        }
+        if rng.chance(1, 2) {
+            // a sibling of the base directory whose name extends the base's name
+            dirs.push("p2".to_string());
         }
     }
     for d in &dirs {
@@ -101,6 +106,29 @@ fn gen_tree(rng: &mut Rng, with_commands: bool) -> (Project, String) {
         text.push_str("end\n");
         p.add_file(s, B(text.into_bytes()));
     }
+    // sources whose names are not valid UTF-8 (legal on Unix; spelled with U+F700+byte, see
+    // tree::osp). Text cannot name them, so they are only ever found by directory scans.
+    if rng.chance(1, 4) {
+        for k in 0..rng.range(1, 2) {
+            let d = rng.pick(&dirs).clone();
+            let name = match rng.below(3) {
+                0 => format!("n{k}caf\u{F7E9}.txtpp.txt"),
+                1 => format!("n{k}\u{F7FF}x.md.txtpp"),
+                _ => format!("n{k}\u{F780}\u{F7C3}.txtpp"),
+            };
+            let path = if d.is_empty() { name } else { format!("{d}/{name}") };
+            let out = crate::names::out_path(&path).unwrap();
+            if outs.contains(&out) {
+                continue;
+            }
+            outs.insert(out);
+            let mut text = format!("raw name {k}\n");
+            if with_commands && rng.chance(1, 2) {
+                text.push_str(&format!("-TXTPP#run printf 'm n{k}\\n' >> \"${{VLOG:?}}/m\"\n"));
+            }
+            p.add_file(&path, B(text.into_bytes()));
+        }
+    }
     // look-alikes and decoys
     let decoys = [
         "txtpp",
@@ -142,6 +170,9 @@ fn gen_input_list(rng: &mut Rng, p: &Project, base: &str) -> Vec<String> {
             r
         }
     };
+    // sources that an input string can name (names that are not UTF-8 cannot be spelled)
+    let mut a = a;
+    a.sources.retain(|s| !s.path.chars().any(|c| ('\u{F780}'..='\u{F7FF}').contains(&c)));
     let n = rng.range(1, 4);
     let mut v: Vec<String> = vec![];
     for _ in 0..n {
